@@ -32,6 +32,13 @@ print("@@" + json.dumps(out))
     return json.loads(line[2:])
 
 
+def common_try(f):
+    try:
+        return f()
+    except Exception:
+        return None
+
+
 def run(run):
     import rt
     import catalogue
@@ -83,6 +90,26 @@ def run(run):
         if n in by_name:
             run.violation("distinct queries %s and %s share the name %s" % (by_name[n], nm, n), {"kind": "collision", "queries": [by_name[n], nm]})
         by_name[n] = nm
+    # task keys across queries: evaluating two queries together (dask.compute(q1, q2)) merges their graphs, so a key shared by
+    # two queries must stand for the same task
+    import graphs
+    key_owner, nkeys, shared = {}, 0, 0
+    for nm, c in cols.items():
+        g = common_try(lambda: dict(c.optimize().__dask_graph__()))
+        if g is None:
+            continue
+        for k, t in g.items():
+            if any(p in str(k) for p in ("zpartd-", "shuffle-partition-", "barrier-", "shuffle-transfer-")):
+                continue            # DiskShuffle keys are fresh per materialization (known finding D14)
+            nkeys += 1
+            if k in key_owner:
+                shared += 1
+                onm, ot = key_owner[k]
+                if onm != nm and not graphs.task_equal(ot, t):
+                    run.violation("queries %s and %s define the task key %r with different tasks" % (onm, nm, k), {"kind": "collision-key", "queries": [onm, nm], "key": repr(k)})
+            else:
+                key_owner[k] = (nm, t)
+    run.section("task-keys-across-queries", keys=nkeys, shared_between_queries=shared)
     # same query twice -> same name and same object
     cols2 = catalogue.build_all(rt.dx, order_seed=run.seed + 5)
     for nm in cols:
